@@ -98,6 +98,13 @@ h("VerifBytestreamWrite2", SV, BS, BSB % 2, "ByteStream.Write: committed_size, e
 h("VerifBytestreamWrite3", SV, BS, BSB % 3, "as VerifBytestreamWrite2", unwind=24, timeout_s=1800)
 h("VerifQueryWriteStatus", SV, BS, "-", "QueryWriteStatus: complete with full size exactly when present")
 
+KY = ["zz_verif_keys.go"]
+h("VerifParseRequestURL", SV, KY, "instance any ASCII string without newline, hash any 64-hex string, ac/ or cas/, validation on/off", "parseRequestURL(/I/kind/hash) = (kind, hash, I): unique regex decomposition under leftmost-first", strings=True)
+h("VerifParseRequestURLAccepts", SV, KY, "any ASCII URL path", "accepted URLs end in (ac|cas)/<64 hex>", strings=True)
+h("VerifGrpcACKeyMangling", SV, KY, "two GetActionResult requests with arbitrary ASCII hash and instance_name strings; sha256 injective", "accepted requests share a key only if (hash, instance) agree; empty instance leaves the key unchanged; mangling off ignores the instance", strings=True)
+h("VerifHTTPGrpcSameKey", SV, KY, "instance any ASCII string without newline, hash any 64-hex string, mangling on/off", "HTTP GET /I/ac/h and gRPC GetActionResult(I,h) use the same cache key", strings=True)
+h("VerifLookupKey", SV, KY, "two arbitrary 64-hex hashes, all kind pairs", "LookupKey is injective and key spaces are disjoint", strings=True)
+
 # property -> (quick harnesses, additional thorough harnesses, assumptions, outside)
 CODEC = "zstd codec replaced by a contract stub: frames self-delimiting, Decode(Encode(x)) = x, anything else fails"
 HASH = "sha256 replaced by a provenance model: collision-free, digest equals the declared hash iff the hashed bytes are exactly the declared blob"
@@ -119,6 +126,7 @@ P = {
  "C12": (["VerifProxyGetAC", "VerifProxyGetCasRaw", "VerifProxyGetCasZstd", "VerifPutRawProxy"], ["VerifProxyGetCasZstdZ", "VerifPutCasZstdProxy", "VerifPutCasRawProxy"], [FSM, CODEC, HASH, "the backend is an arbitrary cache.Proxy stub"], ["minio/azure/gcs SDK calls", "real HTTP body semantics"]),
  "C13": (["VerifGrpcBasicAuth", "VerifGrpcBasicAuthAccepts", "VerifGrpcMTLS", "VerifHTTPAuthWiring"], [], ["auth.CheckSecret is an arbitrary predicate", "strings are ASCII"], ["htpasswd hash checking, TLS handshake and certificate verification, LDAP", "whether grpc-go calls the interceptors for every method"]),
  "C14": (["VerifReadArbitrary2", "VerifGetCasZstd", "VerifGetSpecial"], ["VerifReadArbitrary3", "VerifGetCasZstdAsZstd", "VerifGetCasRawAsZstd", "VerifProxyGetCasZstd"], [FSM, CODEC], ["panics inside stubbed libraries", "resource exhaustion by volume"]),
+ "C15": (["VerifParseRequestURL", "VerifParseRequestURLAccepts", "VerifGrpcACKeyMangling", "VerifHTTPGrpcSameKey", "VerifLookupKey", "VerifGetSpecial"], [], ["sha256 is injective on byte strings (digest texts are fresh 64-hex strings with pairwise (content equal <=> digest equal))", "strings are ASCII", "disk.Cache replaced by a recording stub"], ["sha256 itself", "non-ASCII instance names", "isolation after eviction (C03/C04)"]),
  "C16": (["VerifBytestreamWrite2", "VerifQueryWriteStatus"], ["VerifBytestreamWrite3"], ["disk.Cache replaced by a contract stub (Put consumes the reader and accepts exactly the declared bytes)"], ["grpc-go's own stream behaviour", "more than 3 messages", "more than 2 preemptive context switches"]),
  "C17": (["VerifLRUReserve3", "VerifLRURemove", "VerifLRUAdd3", "VerifPutAC", "VerifProxyGetAC"], ["VerifLRUReserve4", "VerifPutCasZstd", "VerifPutCasRaw", "VerifProxyGetCasRaw"], [FSM], ["real unlink latency"]),
  "C18": (["VerifPutAC", "VerifPutCasRaw", "VerifContains", "VerifProxyGetAC"], ["VerifPutCasZstd", "VerifProxyGetCasRaw", "VerifProxyGetCasZstd"], [FSM, HASH], ["transport-level message size limits"]),
